@@ -12,6 +12,8 @@ def _core(out, tier, seed, prop, quick_mc, thorough_mc, quick_rand, thorough_ran
         jobs["doc-" + cat] = core.doc_jobs(cat, nr, max(3, depth // 2), seed + 1)
         # random graphs with names and values outside the catalogues
         jobs["fuzz-" + cat] = core.fuzz_jobs(max(40, nr // 2), seed + 11, cat)
+        # a clone added under another identifier, then tag edits on both lines (AddClone)
+        jobs["clone-" + cat] = core.clone_jobs(cat, max(60, nr // 2), 5, seed + 41)
         # chained edits of positional fields of connected lines, then removals (SetField)
         jobs["edit-" + cat] = core.edit_jobs(cat, nr, max(5, depth // 2 + 2), seed + 21)
         jobs["edit-%s-v3" % cat] = core.edit_jobs(cat, max(20, nr // 5), 6, seed + 22, vlevel=3, kind="editv3")
@@ -21,6 +23,9 @@ def _core(out, tier, seed, prop, quick_mc, thorough_mc, quick_rand, thorough_ran
             jobs["doc-%s-v%d" % (cat, vl)] = core.doc_jobs(cat, max(20, nr // 5), max(3, depth // 2), seed + 2 + vl,
                                                          vlevel=vl, kind="docv%d" % vl)
     if prop == "C08":
+        # level 3 refuses more (invalid values): a larger share of histories at that level
+        for cat in ("gfa1", "gfa2"):
+            jobs["doc-%s-v3x" % cat] = core.doc_jobs(cat, nr, max(4, depth // 2 + 1), seed + 31, vlevel=3, kind="docv3x")
         # every second history also compares the answers of read-only query groups across refused calls
         for name, js in jobs.items():
             for i, j in enumerate(js):
@@ -218,6 +223,17 @@ def check_c11(out, tier, seed):
                 jobs.append(dict(id="cell-%d" % n, kind="cell", cfg=dict(version="gfa2", vlevel=1),
                                  ops=[A(x) for x in od] + tail, universe=uni))
                 n += 1
+            if second == "b" or tier != "quick":
+                # the same line object is taken out, given the intervals (and orientations) of another
+                # cell while outside the Gfa, and added again: it is filed by what it says now
+                oc = cells[(cells.index(cell) * 7 + 3) % len(cells)]
+                e2 = "E\te\ta%s\t%s%s\t%s\t%s\t%s\t%s\t*" % (oc[1], second, oc[2], p(oc[3][0], oc[3][1]), p(oc[3][2], oc[3][3]),
+                                                               p(oc[3][4], oc[3][5]), p(oc[3][6], oc[3][7]))
+                jobs.append(dict(id="cellre-%d" % n, kind="cell", cfg=dict(version="gfa2", vlevel=1),
+                                 ops=[A(x) for x in segs + [e]] + [dict(k="disc", text=e, id="", id2="", hold=True),
+                                                                  dict(k="add", text=e2, id="", id2="", held=e)] + tail,
+                                 universe=uni))
+                n += 1
     # L / C / G shapes: four orientation pairs x {distinct, self, parallel}
     for o1 in "+-":
         for o2 in "+-":
@@ -270,7 +286,8 @@ def check_c11(out, tier, seed):
                 rule="all 400 cells (2x2 orientations x 10x10 intervals of a length-3 segment incl. empty, "
                      "prefix, suffix, inner, whole) as an edge between distinct segments and as a self-edge, "
                      "each loaded in three arrival orders (quick: one rotating order per cell), then rename, "
-                     "unrelated removal, removal of the edge; L/C/G lines in all four orientation pairs x "
+                     "unrelated removal, removal of the edge; every cell also re-filed after the same E object was "
+                     "disconnected, given another cell's intervals and added again; L/C/G lines in all four orientation pairs x "
                      "{distinct, self, parallel} x three orders; each L shape also required by paths (direct and "
                      "complement form) before the link arrives, in four orders, then path removal, rename, link removal")
     for t in traces[:2] + traces[-2:]:
@@ -280,6 +297,7 @@ def check_c11(out, tier, seed):
     jobs2 = {}
     for cat in ("gfa1", "gfa2"):
         jobs2["doc-" + cat] = c.doc_jobs(cat, 100 if tier == "quick" else 2000, 4, seed)
+        jobs2["edit-" + cat] = c.edit_jobs(cat, 100 if tier == "quick" else 2000, 7, seed + 5)
     c.run_pipeline(out, jobs2, [("gfa2s", 3)] if tier == "quick" else [("gfa2s", 4), ("gfa1s", 4)], "C11")
     import shutil, subprocess, os
     if shutil.which("apalache-mc"):
